@@ -14,7 +14,8 @@ RULE = ("Hypothesis draws 1..6 (quick) / 1..30 (thorough) integer state trajecto
         "1..8 states, lag 1..12, sliding window on/off, max_n_states in {None, observed, observed+extra}, and a "
         "presentation (RaggedArray, -1-padded rectangular ndarray in C / Fortran / transposed / row- and column-strided view "
         "layouts, permuted order; a separate clause counts 1023..4097 short trajectories; int8/int16/int32/int64/uint8/uint16 "
-        "elements; one case in five uses a few large state ids up to min(dtype max, 400)). Oracle: literal "
+        "elements; one case in five uses a few large state ids up to min(dtype max, 400); a separate clause builds the "
+        "RaggedArray from flat data + an int8..uint32 lengths table whose running total passes the table's type). Oracle: literal "
         "double loop over (t, t+lag) pairs per trajectory. A case is non-trivial when it has >=2 trajectories, one "
         "of length <= lag, one of length > 2*lag and at least one transition observed twice; distinct = distinct "
         "canonical JSON of the case. Thorough additionally enumerates every pair of trajectories of length 0..5 "
@@ -438,6 +439,74 @@ def run_recount(case):
     return Info(i.nontrivial and not np.array_equal(R3, C1), list(i.classes) + ["recount_how=" + case["how"]])
 
 
+# --------------------------------------------------------------------------
+# assignments held as ONE flat array plus a table of trajectory lengths in a narrow integer type (what a compact file
+# holds): every single length fits the table's type, their running total does not have to
+
+LEN_TOP = {"int8": 127, "uint8": 255, "int16": 32767, "uint16": 65535, "int32": 2 ** 31 - 1, "uint32": 2 ** 32 - 1,
+           "int64": 2 ** 63 - 1}
+
+
+@st.composite
+def lengths_table_case(draw):
+    ltype = draw(st.sampled_from(["int8", "int8", "uint8", "uint8", "int16", "uint16", "int32", "uint32", "int64"]))
+    n_states = draw(st.integers(1, 5))
+    lag = draw(st.integers(1, 6))
+    if ltype in ("int16", "uint16") and draw(st.integers(0, 2)) == 0:
+        # few very long rows: the total passes 2^15 / 2^16
+        lens = [draw(st.integers(9000, 30000)) for _ in range(draw(st.integers(3, 8)))]
+    else:
+        top = min(LEN_TOP[ltype], 250)
+        lens = [draw(st.one_of(st.integers(1, min(top, 2 * lag + 1)), st.integers(top // 2, top)))
+                for _ in range(draw(st.integers(2, 9)))]
+    if len(set(lens)) == 1:
+        lens[0] = max(1, lens[0] - 1)         # equally long rows are stored as a plain table (another code path, C05's)
+    return {"ltype": ltype, "lens": lens, "n_states": n_states, "lag": lag, "sliding": draw(st.booleans()),
+            "dtype": draw(st.sampled_from(["int64", "int32", "int16", "int8", "uint8"])),
+            "fill_seed": draw(st.integers(0, 10 ** 6)), "sticky": draw(st.sampled_from([0.0, 0.5, 0.9])),
+            "entry": draw(st.sampled_from(["function", "function", "MSM.fit"])),
+            "mns": draw(st.sampled_from([None, "obs", "extra"]))}
+
+
+def run_lengths_table(case):
+    rng = np.random.RandomState(case["fill_seed"])       # seed drawn by Hypothesis; deterministic given the case
+    lens, n = case["lens"], case["n_states"]
+    total = sum(lens)
+    flat = rng.randint(0, n, size=total)
+    keep = rng.random_sample(total) < case["sticky"]
+    for i in range(1, total):
+        if keep[i]:
+            flat[i] = flat[i - 1]
+    flat = flat.astype(case["dtype"])
+    table = np.array(lens, dtype=case["ltype"])
+    x = ra.RaggedArray(flat, lengths=table)
+    cuts = np.cumsum([0] + lens)
+    trajs = [[int(v) for v in flat[cuts[i]:cuts[i + 1]]] for i in range(len(lens))]
+    obs = int(flat.max()) + 1
+    mns = None if case["mns"] is None else obs if case["mns"] == "obs" else obs + 2
+    if case["entry"] == "MSM.fit":
+        from enspara.msm import MSM
+        m = MSM(lag_time=case["lag"], method=lambda C, **kw: (C, C, None), trim=False, sliding_window=case["sliding"],
+                max_n_states=mns)
+        m.fit(x)
+        C = m.tcounts_
+    else:
+        C = assigns_to_counts(x, lag_time=case["lag"], max_n_states=mns, sliding_window=case["sliding"])
+    dense = np.asarray(C.toarray() if scipy.sparse.issparse(C) else C)
+    want = ref_counts(trajs, case["lag"], case["sliding"], mns if mns is not None else obs)
+    require(dense.shape == want.shape, "count matrix has the wrong shape", got=dense.shape, want=want.shape)
+    if not np.array_equal(dense, want):
+        raise Violation("counts of a RaggedArray built from flat data and a %s lengths table differ from the per-trajectory "
+                        "lagged pairs | lengths=%r total_frames=%d lag=%d sliding=%s got_total=%d want_total=%d" % (
+                            case["ltype"], lens if len(lens) < 12 else lens[:12], total, case["lag"], case["sliding"],
+                            int(dense.sum()), int(want.sum())))
+    require(np.array_equal(table, np.array(lens, dtype=case["ltype"])) and table.dtype == np.dtype(case["ltype"]),
+            "the caller's lengths table was modified")
+    passes = total > LEN_TOP[case["ltype"]]
+    return Info(passes and len(lens) >= 3, ["lengths_type=" + case["ltype"], "total_exceeds_lengths_type=%s" % passes,
+                                             "entry=" + case["entry"], "frames=%s" % ("<1e3" if total < 1000 else ">=1e3")])
+
+
 CLAUSES = [
     Clause("exact", count_case(), run_exact, quick=1200, thorough=30000, exhaustive=exhaustive_small),
     Clause("additive", count_case(), run_additive, quick=600, thorough=15000),
@@ -448,6 +517,9 @@ CLAUSES = [
            doc="one trajectory of 2^16..2^18 frames (optionally plus a short one), lags 1..1000, both window modes"),
     Clause("sticky_narrow_dtypes", sticky_case(), run_sticky, quick=24, thorough=400,
            doc="1..3 states, long sticky trajectories in int8..int32: single matrix entries exceed the assignments' dtype"),
+    Clause("ragged_from_lengths_table", lengths_table_case(), run_lengths_table, quick=300, thorough=6000,
+           doc="RaggedArray(flat, lengths=<int8..uint32 table>): every length fits the table's type, the running total "
+               "need not; counts = per-trajectory lagged pairs"),
     Clause("recount_same_object", recount_case(), run_recount, quick=600, thorough=12000,
            doc="one assignments object counted with two lag times, refilled in place, counted again"),
 ]
